@@ -241,7 +241,10 @@ func (pr *ProfileReader) readTagTable(tagTable *TagTable) error {
 	}
 
 	tagDataOffset := tagTableOffset + 4 + (tagCount * 12)
-	tagData := make([]byte, endOfTagData-tagDataOffset)
+	var tagData []byte
+	if endOfTagData > tagDataOffset {
+		tagData = make([]byte, endOfTagData-tagDataOffset)
+	}
 	bytesRead, err := io.ReadFull(pr.reader, tagData)
 	if err == io.ErrUnexpectedEOF {
 		return fmt.Errorf("expected %d bytes of tag data but only got %d", len(tagData), bytesRead)
